@@ -66,6 +66,23 @@ func c18Instant(r *fw.Rand, margin int64) (int64, string) {
 	return ns, cl
 }
 
+// c18Time builds the time.Time for an instant in one of the shapes callers really pass: plain, UTC, a fixed zone,
+// or derived from time.Now() (carrying a monotonic clock reading). The oracle always uses the value's own UnixNano().
+func c18Time(r *fw.Rand, ns int64) time.Time {
+	switch r.Intn(6) {
+	case 0:
+		return time.Unix(0, ns).UTC()
+	case 1:
+		return time.Unix(0, ns).In(time.FixedZone("x", r.Pick(-12, -5, 0, 1, 14)*3600+r.Pick(0, 1800)))
+	case 2:
+		now := time.Now()
+		return now.Add(time.Duration(ns - now.UnixNano())) // monotonic reading present
+	case 3:
+		return time.Unix(ns/1e9, ns%1e9)
+	}
+	return time.Unix(0, ns)
+}
+
 func abs64(x int64) int64 {
 	if x < 0 {
 		return -x
@@ -77,7 +94,10 @@ func c18Capture(c *fw.Ctx, _ int) {
 	r := c.R
 	for k := 0; k < 256; k++ {
 		ns, icl := c18Instant(r, 0)
-		t := time.Unix(0, ns)
+		t := c18Time(r, ns)
+		if t.UnixNano() != ns {
+			ns = t.UnixNano() // (a value derived from time.Now() may differ by the clock's granularity)
+		}
 		var got time.Time
 		if pv, st := fw.Guard(func() { got = rtp.NewAbsCaptureTimeExtension(t).CaptureTime() }); pv != nil {
 			c.Fail("C18/capturetime/panic/"+fw.PanicFunc(st), fmt.Sprintf("panicked: %v", pv), fw.W("instant_ns", ns, "stack", st))
@@ -176,8 +196,12 @@ func c18Estimate(c *fw.Ctx, _ int) {
 			delay, dcl = int64(r.U64()%uint64(maxDelay)), "uniform"
 		}
 		ns, icl := c18Instant(r, delay)
-		send := time.Unix(0, ns)
-		recv := time.Unix(0, ns+delay)
+		send := c18Time(r, ns)
+		ns = send.UnixNano()
+		recv := c18Time(r, ns+delay)
+		if recv.UnixNano() != ns+delay {
+			recv = time.Unix(0, ns+delay)
+		}
 		var est time.Time
 		var ts uint64
 		if pv, st := fw.Guard(func() {
